@@ -528,6 +528,19 @@ def _store_roots(target):
     return [r] if r else []
 
 
+def _contains_exit(t):
+    if not isinstance(t, tuple):
+        return False
+    if t and t[0] == "Exit":
+        return True
+    for x in t[1:]:
+        if isinstance(x, tuple) and _contains_exit(x):
+            return True
+        if isinstance(x, list) and any(_contains_exit(y) for y in x):
+            return True
+    return False
+
+
 class Stability:
     """assignment sites of one function body: name -> [(top_index, in_loop)]"""
 
@@ -929,17 +942,21 @@ class Skel:
                 raise Unsupported("skeleton: try/else at line %d" % s.lineno)
             body = self.block(s.body, env)
             catchall = False
+            catches_exit = False
             hs = []
             for h in s.handlers:
                 types = []
                 if h.type is None:
                     catchall = True
+                    catches_exit = True
                 elif isinstance(h.type, ast.Tuple):
                     types = [dotted(x) for x in h.type.elts]
                 else:
                     types = [dotted(h.type)]
                 if any(t in CATCH_ALL for t in types):
                     catchall = True
+                if any(t in ("BaseException", "SystemExit") for t in types):
+                    catches_exit = True
                 hs.append(self.block(h.body, env))
             if not hs:
                 handler = ("Raise",)
@@ -948,6 +965,9 @@ class Skel:
                 for h in reversed(hs[:-1]):
                     handler = ("If", False, "", h, handler)
             fin = self.block(s.finalbody, env)
+            if catches_exit and _contains_exit(body):
+                # the semantics lets Exit pass every handler (SystemExit is not an Exception)
+                raise Unsupported("skeleton: sys.exit inside a try that catches BaseException/SystemExit, line %d" % s.lineno)
             return ("Try", body, handler, catchall and bool(hs), fin)
         if isinstance(s, ast.With):
             return self.with_items(s.items, s.body, env)
